@@ -50,6 +50,39 @@ def l2_configs(defs, tier, modes=None, all_x0=None, near=False):
     return out
 
 
+BIG_X0 = {1: [800], 2: [700, 300], 3: [900, 60, 40], 4: [600, 250, 100, 50], 5: [600, 200, 100, 60, 40]}
+BIG_MODES = [("tau_adaptive", 0.03), ("tau_fixed", 0.4), ("tau_adaptive", 0.3)]
+
+
+def big_configs(defs, pmap, nsteps=4, modes=None, x0s=None):
+    """Large-population leg: hundreds of individuals, where a leap really moves many individuals at once.  The poisson
+    answers are stated relative to the requested mean (rounded mean by default; none, +3 sigma, beyond every population
+    as deviations) and the horizon is placed between the `nsteps`-1 th and `nsteps` th time of the all-default execution."""
+    from mc import stoch as _st
+    cfgs = []
+    for i, (sname, d) in enumerate(defs):
+        ns = len(d["states"])
+        cand = list(x0s or [BIG_X0[ns]])
+        lims = d.get("limits") or []
+        if any(l is not None and l[1] is not None and l[1] >= 100 for l in lims):
+            # a start two individuals below a large declared upper limit
+            cand.append([int(l[1]) - 2 if (l is not None and l[1] is not None and l[1] >= 100) else b
+                         for l, b in zip(lims, BIG_X0[ns])])
+        for x0 in cand:
+            x0 = _st.legal_x0(d, x0)
+            for mode in (modes or BIG_MODES):
+                name = "%s#%d/big/%s/x0=%s" % (sname, i, "-".join(map(str, mode)), x0)
+                cfgs.append(_st.Config(d, _st.theta_for(d), x0, None, mode, name=name, menu="relative"))
+    Ts = pmap(_st.probe_horizon, [(c, nsteps) for c in cfgs], chunksize=4)
+    out = []
+    for c, T in zip(cfgs, Ts):
+        if T is not None:
+            c.T = float(T)
+            c.name += "/T=%.6g" % T
+            out.append(c)
+    return out, len(cfgs) - len(out)
+
+
 def boundary_x0(d):
     """a start state sitting on every declared upper limit (None when no upper limit)"""
     lims = d.get("limits") or []
